@@ -303,6 +303,7 @@ def judge_case(ctx, res, pid="C08"):
                 ctx.bump("table_listing_checks")
         if bad:
             break
+        ctx.state("distinct_membership_states_observed", repr((sorted(expM), sorted((k, tuple(v)) for k, v in exp_order.items()) if ordered else None)))
         M, order, sib = expM, exp_order, exp_sib
     if res.crash:
         c = res.crash
